@@ -15,7 +15,7 @@ func usage() {
 	fmt.Fprintln(os.Stderr, `usage:
   verifctl check <C15|C16|C18> <quick|thorough>
   verifctl replay <file>
-  verifctl selftest determinism|instrumented-tests
+  verifctl selftest determinism|instrumented-tests|instrumenter
   verifctl run-seg <segment.json> [race]     (debug)`)
 	os.Exit(2)
 }
@@ -48,6 +48,8 @@ func main() {
 			os.Exit(selftestDeterminism(n))
 		case "instrumented-tests":
 			os.Exit(selftestInstrumentedTests())
+		case "instrumenter":
+			os.Exit(selftestInstrumenter())
 		}
 		usage()
 	case "run-seg":
